@@ -7,6 +7,7 @@
 -/
 import MRB.Seq.Machine
 import MRB.Seq.Spec
+import MRB.Traits
 
 namespace MRB.Driver
 open MRB
@@ -86,6 +87,13 @@ structure Case where
   sp : Sp
   deriving Inhabited
 
+def c16Table : String :=
+  let row (t : Traits.Ty) : String :=
+    let b := match t.base with | .prod => "P" | .work => "W" | .cons => "C"
+    let w := match t.wrap with | .plain => "plain" | .detached => "detached" | .async => "async" | .asyncDetached => "asyncdetached"
+    s!"{b} {w} conc={Driver.b t.concurrent} isend={Driver.b t.itemSend} isync={Driver.b t.itemSync} send={Driver.b (Traits.isSend t)} sync={Driver.b (Traits.isSync t)}"
+  ";".intercalate (Traits.allTys.map row)
+
 def handle (c : Option Case) (line : String) : Option Case × String :=
   let ws := (line.trimAscii.toString.splitOn " ").filter (· ≠ "")
   match ws with
@@ -97,6 +105,7 @@ def handle (c : Option Case) (line : String) : Option Case × String :=
       (some { st := st, sp := Sp.init len (w != 0) }, "ok " ++ renderObs st [])
     | _, _, _, _, _ => (c, "bad-init")
   | [] => (c, "")
+  | ["c16"] => (c, c16Table)
   | _ =>
     match c, parseOp ws with
     | some c, some op =>
